@@ -253,7 +253,9 @@ def ensure_runner():
                         "families.ml", "run.ml", "-o", "modelrun"], cwd=rb, timeout=900)
         if rc != 0:
             return False, out + out2
-        shutil.copy(os.path.join(rb, "modelrun"), exe)
+        tmp_exe = exe + ".new.%d" % os.getpid()   # atomic replace: another check may be executing the old binary (ETXTBSY)
+        shutil.copy(os.path.join(rb, "modelrun"), tmp_exe)
+        os.replace(tmp_exe, exe)
         return True, out + out2
 
 
